@@ -1,124 +1,164 @@
+// C04 — nothing is served past its lifetime; composed answers inherit the
+// shortest part; a late background refresh never overwrites newer data.
+//
+// Entry binary (plain): generated virtual-time histories against the real
+// edns + cache pipeline with a scripted stub upstream (exec.go, stub.go, gen.go).
+// Race child (this same package built with -race, C04_PHASE=race): concurrent
+// Store histories judged by porcupine (cas.go) and the gated-prefetch pipeline
+// scenario (gate.go).
 package main
 
 import (
-	"context"
+	"encoding/json"
 	"fmt"
+	"os"
 	"time"
 
-	"github.com/miekg/dns"
-	"github.com/semihalev/sdns/config"
-	"github.com/semihalev/sdns/middleware"
 	"github.com/semihalev/sdns/middleware/cache"
 	"github.com/semihalev/sdns/zzverif/stack"
+	"github.com/semihalev/sdns/zzverif/vlib"
 )
 
-type obs struct{}
-
-func (obs) Name() string     { return "verif-c04-obs" }
-func (obs) ClientOnly() bool { return true }
-
-var lastCut time.Time
-var lastHas bool
-
-func (obs) ServeDNS(ctx context.Context, ch *middleware.Chain) {
-	ch.Next(ctx)
-	m := middleware.ResponseMetaFrom(ctx)
-	lastHas = m != nil
-	if m != nil {
-		lastCut, _ = m.Cut()
-	}
-}
-
-func q(name string, t uint16, do bool) *dns.Msg {
-	m := new(dns.Msg)
-	m.SetQuestion(name, t)
-	m.SetEdns0(1232, do)
-	return m
-}
-
-func show(tag string, r stack.Result) {
-	fmt.Printf("== %s wrote=%v strict=%v handled=%v cut=%v has=%v\n", tag, r.Wrote, r.Strict, r.Handled, lastCut.Sub(time.Now()), lastHas)
-	if r.Msg != nil {
-		fmt.Println(r.Msg.String())
-	}
-	fmt.Println(cache.VerifC04Counters())
-}
-
-
-func sig(owner string, covered uint16, ttl uint32, zone string, gen uint16, exp time.Duration) *dns.RRSIG {
-	now := time.Now()
-	return &dns.RRSIG{Hdr: dns.RR_Header{Name: owner, Rrtype: dns.TypeRRSIG, Class: 1, Ttl: ttl}, TypeCovered: covered, Algorithm: 13,
-		Labels: uint8(dns.CountLabel(owner)), OrigTtl: ttl, Expiration: uint32(now.Add(exp).Unix()), Inception: uint32(now.Add(-time.Hour).Unix()),
-		KeyTag: gen, SignerName: zone, Signature: "AAAA"}
-}
+const rule = "distinct_nontrivial = histories in which replies built from cached pieces were judged on at least two different routes/outcomes (exact msg/wire, chase msg/wire, cut msg/wire, proof, re-cached composition, expired-entry miss), plus concurrent Store histories with overlapping operations and both a successful and a refused ReplaceIfCurrent, plus gated-refresh scenario variants that completed; interleavings = distinct call/return event orders of the concurrent histories"
 
 func main() {
+	r := vlib.Start("C04", "exploration")
+	r.Assume("virtual time = monotonic real time + sum of clock steps; a step shifts every stored instant of the cache middleware back (hooks/middleware/cache/zz_verif_clock.go) and happens only at quiescent points")
+	r.Assume("RRSIG validity windows are relative to the real clock at admission; the bound they impose is captured as a TTL at admission and aged by shifting")
+	r.Assume("sub-second errors are not judged: a reply is a violation only if observed after a1+L, a TTL only if above ceil(a1+L-o0)")
+	r.Assume("the stub stands in for the resolver: leases are attached through ResponseMeta.BoundCutFor, validated-denial provenance through MarkValidatedNegativeProofResponse; signatures are not cryptographically valid (the cache never checks them)")
+
+	if rc := r.ReplayCase(); rc != nil {
+		replay(r, rc)
+		r.Finish(rule)
+	}
+	switch os.Getenv("C04_PHASE") {
+	case "race":
+		phaseRace(r)
+	case "histories":
+		phaseHistories(r)
+	default:
+		parent(r)
+	}
+	r.Finish(rule)
+}
+
+func parent(r *vlib.Run) {
+	// the race child runs beside the in-process histories
+	done := make(chan struct{})
+	pfx := r.RacePrefix("race")
+	go func() {
+		defer close(done)
+		timeout := time.Duration(r.N(170, 1500)) * time.Second
+		res := r.Child("race", nil, vlib.BinPath("c04", "race"), nil, []string{vlib.RaceEnv(pfx), "C04_PHASE=race"}, timeout)
+		switch {
+		case res.TimedOut:
+			r.Inconclusive(fmt.Sprintf("race child hit the %v watchdog (log %s)", timeout, res.Output))
+		case !res.HasState:
+			r.Inconclusive(fmt.Sprintf("race child ended without reporting (exit %d, log %s)", res.ExitCode, res.Output))
+		}
+	}()
+	phaseHistories(r)
+	<-done
+	r.Count("race_reports", r.ScanRaceLogs(pfx))
+
+	for _, c := range []string{"histories", "replies_judged", "ttl_observations", "ttl_pairs_compared", "clock_steps", "purges"} {
+		r.Require(c, int64(r.N(100, 2000)))
+	}
+	// every serving route the verdict speaks about must have been judged
+	for _, c := range []string{"replies_exact-msg", "replies_exact-wire", "replies_chase-msg", "replies_chase-wire",
+		"replies_cut-msg", "replies_cut-wire", "replies_proof-msg", "replies_chase-into-denial", "replies_from_recached_composition",
+		"replies_engine_inline", "records_judged_exact", "records_judged_cut", "records_judged_proof", "records_judged_recached"} {
+		r.Require(c, int64(r.N(10, 200)))
+	}
+	for _, c := range []string{"admissions_pos", "admissions_alias", "admissions_zone-nxdomain", "admissions_zone-nodata", "admissions_ecs",
+		"admissions_scoped", "admissions_with_lease", "admissions_background_refresh", "admissions_inheriting_cached_piece"} {
+		r.Require(c, int64(r.N(10, 200)))
+	}
+	r.Require("admissions_nxd", int64(r.N(5, 100)))
+	r.Require("admissions_nodata", int64(r.N(5, 100)))
+	for _, c := range []string{"lease_bounded_serves", "lease_bounded_serves_exact", "lease_bounded_serves_cut", "lease_bounded_serves_proof",
+		"inherited_deadline_bounded_serves", "ecs_cap_bounded_serves", "floored_entry_serves", "expired_entry_misses", "request_bounds_checked",
+		"request_bounds_checked_exact-wire", "request_bounds_checked_chase-wire", "request_bounds_checked_cut-wire"} {
+		r.Require(c, int64(r.N(5, 100)))
+	}
+	r.Require("cas_histories_ok", int64(r.N(100, 2000)))
+	r.Require("cas_success", int64(r.N(200, 4000)))
+	r.Require("cas_refused", int64(r.N(200, 4000)))
+	r.Require("gate_scenarios", int64(r.N(30, 600)))
+	for v := 0; v < 4; v++ {
+		r.Require(fmt.Sprintf("gate_scenarios_variant%d", v), int64(r.N(5, 100)))
+	}
+	r.Require("gate_control_refresh_applied", int64(r.N(5, 100)))
+}
+
+func phaseHistories(r *vlib.Run) {
+	n := r.N(300, 6000)
+	for i := 0; i < n; i++ {
+		h := genHistory(r.RandN("hist", i), i, r.Seed)
+		if i < 2 {
+			r.Sample(map[string]any{"history": h.Index, "names": h.Names, "ops": h.Ops})
+		}
+		if !runHistory(r, h) {
+			r.Count("histories_aborted", 1)
+			if r.Counter("histories_aborted") > 5 {
+				r.Inconclusive("too many histories could not be completed")
+				return
+			}
+		}
+		r.Progress("histories %d/%d", i+1, n)
+	}
+}
+
+func phaseRace(r *vlib.Run) {
 	cfg := stack.DefaultConfig()
-	cfg.DNSSEC = "on"
-	cfg.ECS.Enabled = true
-	cfg.ECS.CacheLimitTTL.Duration = 30 * time.Second
-	gen := uint32(0)
-	zone := "z1.test."
-	st := stack.MustNew(stack.Options{Config: cfg,
-		Before: func() {
-			middleware.RegisterBefore("verif-c04-obs", func(*config.Config) middleware.Handler { return obs{} }, "cache")
-		},
-		Stub: func(ctx context.Context, req *stack.StubRequest) *stack.StubReply {
-			gen++
-			fmt.Printf("STUB %s type %d internal=%v do=%v id=%d ecs=%v\n", req.Q.Name, req.Q.Qtype, req.Internal, req.DO, req.ID, req.ECS)
-			m := new(dns.Msg)
-			name := dns.CanonicalName(req.Q.Name)
-			if dns.IsSubDomain(zone, name) {
-				g := uint16(gen)
-				soa := &dns.SOA{Hdr: dns.RR_Header{Name: zone, Rrtype: dns.TypeSOA, Class: 1, Ttl: 100}, Ns: "ns." + zone, Mbox: "h." + zone, Serial: gen, Refresh: 1, Retry: 1, Expire: 1, Minttl: 60}
-				n0 := &dns.NSEC{Hdr: dns.RR_Header{Name: zone, Rrtype: dns.TypeNSEC, Class: 1, Ttl: 40}, NextDomain: "m." + zone, TypeBitMap: []uint16{dns.TypeNS, dns.TypeSOA, dns.TypeRRSIG, dns.TypeNSEC, dns.TypeDNSKEY}}
-				n1 := &dns.NSEC{Hdr: dns.RR_Header{Name: "m." + zone, Rrtype: dns.TypeNSEC, Class: 1, Ttl: 30}, NextDomain: zone, TypeBitMap: []uint16{dns.TypeA, dns.TypeRRSIG, dns.TypeNSEC}}
-				m.Ns = []dns.RR{soa, sig(zone, dns.TypeSOA, 100, zone, g, time.Hour), n0, sig(zone, dns.TypeNSEC, 40, zone, g, time.Hour)}
-				m.AuthenticatedData = true
-				if name == "m."+zone {
-					m.Ns = []dns.RR{soa, sig(zone, dns.TypeSOA, 100, zone, g, time.Hour), n1, sig("m."+zone, dns.TypeNSEC, 30, zone, g, time.Hour)}
-					return &stack.StubReply{Msg: m, Negative: &middleware.ValidatedNegativeProof{Subject: name, Zone: zone, Kind: middleware.ValidatedNegativeProofNSEC, Aggressive: true}}
-				}
-				m.Rcode = dns.RcodeNameError
-				labels := dns.SplitDomainName(name)
-				subj := labels[len(labels)-3] + "." + zone
-				if name > "m."+zone {
-					m.Ns = append(m.Ns, n1, sig("m."+zone, dns.TypeNSEC, 30, zone, g, time.Hour))
-				}
-				return &stack.StubReply{Msg: m, CutUntil: time.Now().Add(25 * time.Second), Negative: &middleware.ValidatedNegativeProof{Subject: subj, Zone: zone, Kind: middleware.ValidatedNegativeProofNSEC, Aggressive: true}}
-			}
-			if name == "ecs.pos.test." {
-				m.Answer = []dns.RR{stack.MarkerRR(gen, req.Q.Name, req.Q.Qtype, 200)}
-				return &stack.StubReply{Msg: m, HasECSScope: true, ECSScope: 24}
-			}
-			return nil
-		}})
-	defer st.Close()
-	r := st.ServeMsg("203.0.113.9:4000", "udp", q("x.d1.z1.test.", dns.TypeA, true))
-	show("admit nx d1", r)
-	r = st.ServeMsg("203.0.113.9:4000", "udp", q("y.d1.z1.test.", dns.TypeA, true))
-	show("cut hit msg", r)
-	pkt, _ := q("w.D1.z1.test.", dns.TypeA, false).Pack()
-	r = st.ServeRaw("203.0.113.9:4000", "udp", pkt)
-	show("cut hit wire do=0", r)
-	r = st.ServeMsg("203.0.113.9:4000", "udp", q("e5.z1.test.", dns.TypeA, true))
-	show("proof nx", r)
-	r = st.ServeMsg("203.0.113.9:4000", "udp", q("m.z1.test.", dns.TypeAAAA, true))
-	show("admit nodata m", r)
-	r = st.ServeMsg("203.0.113.9:4000", "udp", q("m.z1.test.", dns.TypeTXT, true))
-	show("proof nodata", r)
-	r = st.ServeMsg("203.0.113.9:4000", "udp", q("q7.z1.test.", dns.TypeTXT, false))
-	show("proof nx via two nsec do=0", r)
-	pkt, _ = q("q8.z1.test.", dns.TypeA, true).Pack()
-	r = st.ServeRaw("203.0.113.9:4000", "udp", pkt)
-	show("proof nx wire", r)
-	e := q("ecs.pos.test.", dns.TypeA, false)
-	e.IsEdns0().Option = append(e.IsEdns0().Option, &dns.EDNS0_SUBNET{Code: dns.EDNS0SUBNET, Family: 1, SourceNetmask: 24, Address: []byte{198, 51, 100, 0}})
-	r = st.ServeMsg("203.0.113.9:4000", "udp", e.Copy())
-	show("ecs admit", r)
-	r = st.ServeMsg("203.0.113.9:4000", "udp", e.Copy())
-	show("ecs hit", r)
-	for _, e := range st.Cache().VerifStore().VerifDump() {
-		fmt.Printf("%+v\n", e)
+	c := cache.New(cfg)
+	store := c.VerifStore()
+	n := r.N(200, 4000)
+	for i := 0; i < n; i++ {
+		evs := runCASHistory(r, store, i, 8, 50)
+		judgeCASHistory(r, i, evs)
+		r.Progress("cas histories %d/%d", i+1, n)
+	}
+	c.Stop()
+	m := r.N(80, 1600)
+	for i := 0; i < m; i++ {
+		runGateScenario(r, i)
+		r.Progress("gate scenarios %d/%d", i+1, m)
+	}
+}
+
+func replay(r *vlib.Run, rc json.RawMessage) {
+	var head struct {
+		Mode    string   `json:"mode"`
+		Index   int      `json:"index"`
+		History *history `json:"history"`
+	}
+	if err := json.Unmarshal(rc, &head); err != nil {
+		r.Fatalf("replay: %v", err)
+	}
+	switch head.Mode {
+	case "history":
+		if head.History == nil {
+			r.Fatalf("replay: no history in case")
+		}
+		runHistory(r, head.History)
+	case "gate":
+		runGateScenario(r, head.Index)
+	case "cas":
+		// a concurrent history cannot be re-executed move by move: re-judge the
+		// recorded one and run a fresh history with the same index
+		var c struct {
+			Events []casEvent `json:"events"`
+		}
+		_ = json.Unmarshal(rc, &c)
+		if len(c.Events) > 0 {
+			judgeCASHistory(r, head.Index, c.Events)
+		}
+		cc := cache.New(stack.DefaultConfig())
+		judgeCASHistory(r, head.Index, runCASHistory(r, cc.VerifStore(), head.Index, 8, 50))
+		cc.Stop()
+	default:
+		r.Fatalf("replay: unknown mode %q", head.Mode)
 	}
 }
